@@ -28,6 +28,19 @@ Definition map_agrees {V} (veqb : V -> V -> bool) (impl : list (Z * V)) (m : zma
 Definition set_agrees (impl : list Z) (m : list Z) : bool :=
   strictly_sorted impl && (length impl =? length m)%nat && forallb (fun x => zmem x m) impl.
 
+(* the ordered list holds exactly the ids that are keys of the map (same length, each a key) *)
+Definition set_agrees_keys {V} (l : list Z) (m : zmap V) : bool :=
+  (length l =? length m)%nat && forallb (fun x => mmem x m) l.
+
+(* compact constructors for the printed cases (no implicit arguments to infer) *)
+Definition A (k : Z) : ip := Some k.
+Definition NA : ip := None.
+Definition TK (l : list Z) : option (list Z) := Some l.
+Definition NT : option (list Z) := None.
+Definition KV (k v : Z) : Z * Z := (k, v).
+Definition KH (k : Z) (h : hostinfo) : Z * hostinfo := (k, h).
+Definition DUMP (hs : list (Z * hostinfo)) (ips : list (Z * Z)) (l : list Z) := (hs, ips, l).
+
 (* hosts by id, id by address, ordered list (ids) *)
 Definition dump := (list (Z * hostinfo) * list (Z * Z) * list Z)%type.
 
@@ -55,19 +68,29 @@ Definition rret_eqb (a b : rret) : bool :=
 Definition byip_eqb (a b : option hostinfo * bool) : bool :=
   opt_eqb host_eqb (fst a) (fst b) && Bool.eqb (snd a) (snd b).
 
-(* one step of a ring history: the operation, what it returned, the ring afterwards, and the answers
-   of getHost / getHostByIP for some keys *)
-Definition ringstep := (rop * rret * dump * list (Z * option hostinfo) * list (Z * (option hostinfo * bool)))%type.
+(* one step of a ring history: the operation, what it returned (for add/update: the touched host in
+   full), the address index and the ordered list afterwards, which of the probed ids getHost finds, and
+   what getHostByIP answers for the probed addresses (id of the returned host, -9 for nil) *)
+Inductive ipprobe := IPP (key : Z) (id : Z) (ok : bool).
+Inductive ringstep := RStep (o : rop) (ret : rret) (ips : list (Z * Z)) (l : list Z) (idp : list Z) (found : list bool)
+                            (ipp : list ipprobe).
 
-Fixpoint check_ring (r : ring) (steps : list ringstep) : bool :=
+Definition opt_id (h : option hostinfo) : Z := match h with Some x => h_id x | None => -9 end.
+Definition bools_eqb (a b : list bool) : bool :=
+  (length a =? length b)%nat && forallb (fun p => Bool.eqb (fst p) (snd p)) (combine a b).
+
+(* the final ring of the history is compared in full *)
+Fixpoint check_ring (r : ring) (steps : list ringstep) (final : dump) : bool :=
   match steps with
-  | [] => true
-  | (o, ret, d, idp, ipp) :: tl =>
+  | [] => dump_agrees final r
+  | RStep o ret ips l idp found ipp :: tl =>
       let '(r', ret') := ring_step r o in
-      rret_eqb ret ret' && dump_agrees d r'
-      && forallb (fun p => opt_eqb host_eqb (get_host r' (fst p)) (snd p)) idp
-      && forallb (fun p => byip_eqb (get_by_ip r' (fst p)) (snd p)) ipp
-      && check_ring r' tl
+      rret_eqb ret ret' && map_agrees Z.eqb ips (ip2id r') && zlist_eqb l (hlist r')
+      && set_agrees_keys l (hosts r')
+      && bools_eqb found (map (fun id => mmem id (hosts r')) idp)
+      && forallb (fun p => match p with IPP key id ok =>
+                    let g := get_by_ip r' key in (opt_id (fst g) =? id) && Bool.eqb (snd g) ok end) ipp
+      && check_ring r' tl final
   end.
 
 (* ------------------------------------------------------------ session histories *)
@@ -82,10 +105,12 @@ Inductive sstep :=
 | SRefreshFail                                                    (* the node answers system.local with an error *)
 | SEvents (evs : list nevent)                                     (* handleNodeEvent on one batch *)
 | SConnected (id : Z)                                             (* handleNodeConnected for the ring's host id *)
-| SRemove (id : Z).                                               (* Session.removeHost of the ring's host id *)
+| SRemove (id : Z)                                                (* Session.removeHost of the ring's host id *)
+| SControl (contact : ip) (local : hostinfo) (rows : list hostinfo). (* controlConn.reconnect: setupConn on the host dialled at [contact], then a refresh *)
 
 (* observation after a step: result code, "a debounced refresh is armed", ring, pool ids, policy calls *)
-Definition sobs := (Z * bool * dump * list Z * list paction)%type.
+Inductive sobs := OBS (code : Z) (pending : bool) (d : dump) (pool : list Z) (log : list paction).
+Inductive sstepobs := SO (st : sstep) (o : sobs).
 
 Definition pcode (a : paction) : Z :=
   match a with
@@ -122,7 +147,7 @@ Definition rres_code (r : rres) : Z :=
   match r with ROk => 0 | RErrCannotFind => 1 | RErrExists => 2 | RPanic => 3 end.
 
 Definition clear_log (s : sess) : sess := mkSess (s_ring s) (s_pool s) [] (s_refresh s).
-Definition clear_refresh (s : sess) : sess := mkSess (s_ring s) (s_pool s) (s_log s) false.
+Definition clear_refresh (s : sess) : sess := refresh_started s.
 
 (* Session.init keeps one host per id (hostMap[id] = host: the last one wins) *)
 Definition dedupe (hs : list hostinfo) : list hostinfo :=
@@ -153,6 +178,19 @@ Definition model_sstep (c : cfg) (s : sess) (st : sstep) : option sess * Z :=
   | SEvents evs => (handle_node_events c s evs, 0)
   | SConnected id => (Some (node_connected c s id), 0)
   | SRemove id => (match mget id (hosts (s_ring s)) with Some h => Some (remove_host s h) | None => Some s end, 0)
+  | SControl contact local rows =>
+      match host_from_row (set_conn local contact) with
+      | None => (None, 0)
+      | Some ctl =>
+          match add_or_update (s_ring s) ctl with
+          | None => (None, 0)
+          | Some (r', e) =>
+              (* setupConn: go startPoolFill(host); reconnect: refreshRing (an error is only logged) *)
+              let s1 := start_pool_fill (with_ring s r') e in
+              let '(s', res) := refresh_rows c (clear_refresh s1) local rows in
+              (match res with RPanic => None | _ => Some s' end, 0)
+          end
+      end
   end.
 
 Definition log_agrees (st : sstep) (impl model : list paction) : bool :=
@@ -164,17 +202,17 @@ Definition log_agrees (st : sstep) (impl model : list paction) : bool :=
 Definition adopt_order (s : sess) (l : list Z) : sess :=
   mkSess (mkRing (hosts (s_ring s)) (ip2id (s_ring s)) l) (s_pool s) (s_log s) (s_refresh s).
 
-Fixpoint check_sess (c : cfg) (s : sess) (steps : list (sstep * sobs)) : bool :=
+Fixpoint check_sess (c : cfg) (s : sess) (steps : list sstepobs) : bool :=
   match steps with
   | [] => true
-  | (st, (code, pending, d, pool, log)) :: tl =>
+  | SO st (OBS code pending d pool log) :: tl =>
       match model_sstep c (clear_log s) st with
       | (None, mcode) =>
           (* the model panics: the implementation must have panicked too (code 3); a panic ends the history *)
           (code =? 3) && match tl with [] => true | _ => false end
       | (Some s', mcode) =>
           (code =? mcode)
-          && Bool.eqb pending (s_refresh s')
+          && Bool.eqb pending (0 <? s_refresh s')
           && set_agrees pool (s_pool s')
           && log_agrees st log (s_log s')
           && match st with
@@ -187,15 +225,15 @@ Fixpoint check_sess (c : cfg) (s : sess) (steps : list (sstep * sobs)) : bool :=
 (* ------------------------------------------------------------ cases *)
 Inductive case :=
 | CHostFns (h from : hostinfo) (upd : hostinfo) (n2nk : Z) (invalid validpeer : bool) (fromrow : option hostinfo)
-| CRing (steps : list ringstep)
-| CSess (c : cfgspec) (steps : list (sstep * sobs)).
+| CRing (steps : list ringstep) (final : dump)
+| CSess (c : cfgspec) (steps : list sstepobs).
 
 Definition check (c : case) : bool :=
   match c with
   | CHostFns h from upd n2nk invalid validpeer fromrow =>
       host_eqb (update h from) upd && (n2n_key h =? n2nk) && Bool.eqb (invalid_connect_addr h) invalid
       && Bool.eqb (is_valid_peer h) validpeer && opt_eqb host_eqb (host_from_row h) fromrow
-  | CRing steps => check_ring empty_ring steps
+  | CRing steps final => check_ring empty_ring steps final
   | CSess cs steps => check_sess (cfg_of cs) empty_sess steps
   end.
 
